@@ -44,19 +44,21 @@ def check_call(kind, strategy, model, names, x, subset, n, inputs, results, rows
         raise Bad("result-count", f"impute returned {type(results).__name__} of {len(results) if hasattr(results, '__len__') else '?'}, expected list of {n}")
     if not (x == x_before):
         raise Bad("instance-modified", f"x changed from {x_before!r} to {x!r}")
+    def intended(xi):      # x with exactly the requested features replaced, in x's own key order
+        return {k: (xi[k] if (k in sub and k in xi) else x_before[k]) for k in x_before}
     if kind == "default":
         if len(inputs) < 1:
             raise Bad("no-evaluation", "model never evaluated")
-        outs = [model.one(xi) for xi in inputs]
+        outs = [model.one(intended(xi)) for xi in inputs]
         if len(inputs) == 1:
             outs = outs * n
     else:
-        outs = [model.one(xi) for xi in inputs]
+        outs = [model.one(intended(xi)) for xi in inputs]
     if len(outs) != n:
         raise Bad("evaluation-count", f"{len(inputs)} model evaluations for n_samples={n}")
     for r, o in zip(results, outs):
         if not (r == o):
-            raise Bad("result-not-model-output", f"returned {r!r}, model on the logged input gives {o!r}")
+            raise Bad("result-not-model-output", f"returned {r!r}; the model on x with exactly the subset replaced gives {o!r}")
     sources = set()
     for xi in inputs:
         if set(xi.keys()) != set(x.keys()):
@@ -103,11 +105,18 @@ def main(run):
     def one_case(kind, strategy, d, m, n, spec, cont, scripted, subsets=None):
         names = make_names(rnd.choice(["str", "int", "float"]), d)
         clock = Clock()
-        model = Models(rnd.choice(["scalar", "multi", "grow"]), names, exact=False, clock=clock)
+        model = Models(rnd.choice(["scalar", "multi", "grow", "positional"]), names, exact=False, clock=clock)
         st = make_storage(spec, clock)
         falsy = {j: (rnd.randrange(m), rnd.choice([0, 0.0, False, ""])) for j in range(d) if rnd.random() < 0.5}
+        row_order = list(enumerate(names))
+        if rnd.random() < 0.5:
+            rnd.shuffle(row_order)             # stored observations may list their keys in another order than the instance
+        wide = rnd.random() < 0.3              # ... and may carry keys the instance does not have (sparse / evolving dicts)
         for t in range(m):
-            st.update({f: (falsy[j][1] if j in falsy and falsy[j][0] == t else 1000 * (t + 1) + j) for j, f in enumerate(names)}, t)
+            row = {f: (falsy[j][1] if j in falsy and falsy[j][0] == t else 1000 * (t + 1) + j) for j, f in row_order}
+            if wide:
+                row = {"row_only": -t, **row}
+            st.update(row, t)
         defaults = {f: (rnd.choice([0, 0.0, False, "", None]) if rnd.random() < 0.4 else -(j + 1)) for j, f in enumerate(names)}
         imp = DefaultImputer(model, dict(defaults)) if kind == "default" else MarginalImputer(model, strategy, st)
         x = {f: 900000 + j for j, f in enumerate(names)}
